@@ -435,6 +435,10 @@ class HyASTCompiler:
                     compiled_exprs.append(ret.force_expr)
                 elif with_kwargs:
                     keywords.append(asty.keyword(expr, arg=None, value=ret.force_expr))
+                else:
+                    raise self._syntax_error(
+                        expr, "`unpack-mapping` is not allowed here"
+                    )
 
             elif with_kwargs and isinstance(expr, Keyword):
                 try:
